@@ -36,6 +36,14 @@ def cases(tier, rng, schema, feats):
         for c in counters + [rng.below(2**32)]:
             add("mc", rp, flags, c, "-", "-")
             add("ga", rng.bytes(32), flags, c, "-", "-")
+    # every flag combination against presence / absence of the optional parts (the flags byte is written as
+    # given: it must not be "corrected" to match the data that follows)
+    for m in range(16):
+        flags = sum(b for i, b in enumerate(FLAG_BITS) if m >> i & 1)
+        for acd in ("-", "00" * 16 + ":0102:a0"):
+            for ext in ("-", "{}"):
+                add("mc", rp, flags, 5, acd, "{cred_protect=N;hmac_secret=N;large_blob_key=N}" if ext != "-" else "-")
+                add("ga", rp, flags, 5, "-", "{hmac_secret=N}" if ext != "-" else "-")
     ext_t = {"mc": "ctap2::make_credential::Extensions", "ga": "ctap2::get_assertion::ExtensionsOutput"}
     for flavour, t in ext_t.items():
         for sub in gen.subsets_or_sample(g.optional_labels(t), rng, 64):
@@ -67,6 +75,8 @@ def oracle(parts):
         if len(i) > 65535:
             return None
         b += a + len(i).to_bytes(2, "big") + i + k
+    if ext != "-":
+        b += b"\xa0"   # an extension value with no member set is the empty map
     return b
 
 
@@ -74,7 +84,7 @@ def judge(line, m, i):
     if core.norm(m) != core.norm(i):
         return "model of the specification and implementation disagree"
     parts = line.split("\t")
-    if parts[7] == "-":  # no extension: the layout is fully determined here
+    if parts[7] in ("-", "{cred_protect=N;hmac_secret=N;large_blob_key=N}", "{hmac_secret=N}"):  # layout fully determined here
         want = oracle(parts)
         if want is None or len(want) > 676:
             if not (i or "").startswith("err"):
